@@ -127,8 +127,11 @@ class Interp:
     """Subclass / configure:  record_calls = set of method names whose calls are
     recorded as events (receiver text, method, evaluated args)."""
 
-    def __init__(self, record_calls=(), refine_hook=None, call_hook=None, max_paths=4096):
+    def __init__(self, record_calls=(), refine_hook=None, call_hook=None, max_paths=4096, consts=None):
         self.record_calls = set(record_calls)
+        # constant tables known by their text (`self.NAME`, `cls.NAME`, `Class.NAME`, module globals): python list / tuple / set /
+        # dict values folded from literals; used for membership tests, subscripts with a constant key, .get / .keys / .values
+        self.consts = dict(consts or {})
         self.call_hook = call_hook
         self.max_paths = max_paths
         self.steps = 0
@@ -180,6 +183,16 @@ class Interp:
             pa, pb = parts(a), parts(b)
             if pa is not None and pb is not None:
                 return S(pa + pb)
+            return TOP
+        if isinstance(e, ast.Subscript) and norm(e.value) in self.consts and isinstance(self.consts[norm(e.value)], dict):
+            k = self.ev(e.slice, env)
+            tbl = self.consts[norm(e.value)]
+            if isinstance(k, C):
+                try:
+                    if k.v in tbl:
+                        return C(tbl[k.v])
+                except TypeError:
+                    pass
             return TOP
         if isinstance(e, ast.Subscript):
             base = norm(e.value)
@@ -244,6 +257,17 @@ class Interp:
             r = self.call_hook(self, e, env)
             if r is not None:
                 return r
+        if isinstance(f, ast.Attribute) and name == "get" and norm(f.value) in self.consts and isinstance(self.consts[norm(f.value)], dict) and 1 <= len(e.args) <= 2 and not e.keywords:
+            k = self.ev(e.args[0], env)
+            tbl = self.consts[norm(f.value)]
+            if isinstance(k, C):
+                try:
+                    if k.v in tbl:
+                        return C(tbl[k.v])
+                    return self.ev(e.args[1], env) if len(e.args) == 2 else C(None)
+                except TypeError:
+                    return TOP
+            return TOP
         if isinstance(f, ast.Attribute) and name in ("upper", "lower", "strip") and not e.args:
             v = self.ev(f.value, env)
             if isinstance(v, C) and isinstance(v.v, str):
@@ -259,6 +283,12 @@ class Interp:
                 env2[tgt] = S((("elt", norm(g.iter)),))
                 elt = self.ev(a.elt, env2)
                 return S((("join", sep.v if isinstance(sep, C) else repr(sep), elt, norm(g.iter), tuple(norm(i) for i in g.ifs), tgt),))
+            if isinstance(a, ast.BinOp) and isinstance(a.op, ast.Mult):
+                # sep.join([x] * len(seq)): one x per element of seq, like (x for _ in seq)
+                lst, cnt = (a.left, a.right) if isinstance(a.left, (ast.List, ast.Tuple)) else (a.right, a.left)
+                if isinstance(lst, (ast.List, ast.Tuple)) and len(lst.elts) == 1 and isinstance(cnt, ast.Call) and isinstance(cnt.func, ast.Name) and cnt.func.id == "len" \
+                        and len(cnt.args) == 1 and not cnt.keywords:
+                    return S((("join", sep.v if isinstance(sep, C) else repr(sep), self.ev(lst.elts[0], env), norm(cnt.args[0]), (), None),))
             return S((("join", sep.v if isinstance(sep, C) else repr(sep), None, norm(a), (), None),))
         if name == "isinstance" and len(e.args) == 2:
             ts = {tv for tv, _ in self.test(e, env)}
@@ -306,6 +336,21 @@ class Interp:
                     return [(isinstance(op, ast.Is), e_t), (not isinstance(op, ast.Is), e_f)]
                 res = (k == "none")
                 return [(res if isinstance(op, ast.Is) else not res, env)]
+            if isinstance(op, (ast.In, ast.NotIn)) and isinstance(l, C):
+                rt = t.comparators[0]
+                cont = None
+                if norm(rt) in self.consts:
+                    cont = self.consts[norm(rt)]
+                elif isinstance(rt, ast.Call) and isinstance(rt.func, ast.Attribute) and rt.func.attr in ("keys", "values") and not rt.args and norm(rt.func.value) in self.consts \
+                        and isinstance(self.consts[norm(rt.func.value)], dict):
+                    d_ = self.consts[norm(rt.func.value)]
+                    cont = list(d_.keys()) if rt.func.attr == "keys" else list(d_.values())
+                if cont is not None:
+                    try:
+                        res = l.v in cont
+                        return [(res if isinstance(op, ast.In) else not res, env)]
+                    except TypeError:
+                        pass
             if isinstance(op, (ast.In, ast.NotIn)) and isinstance(l, C) and isinstance(r, C) and isinstance(r.v, (tuple, frozenset, str)):
                 res = l.v in r.v
                 return [(res if isinstance(op, ast.In) else not res, env)]
